@@ -1154,3 +1154,62 @@ def ord12b_close_does_not_unwrap_shared_ownership(P, R, L, rule="ORD-12"):
 def sites_reaching_stop(P, b):
     from ..rules import sites_reaching
     return [c for c in sites_reaching(P, b, ["compaction::worker::CompactionWorker::stop_worker_thread"]) if not b.is_cleanup(c.bb)]
+
+
+# ------------------------------------------------------------------------------------------- GRD-37 a block handle is checked against the file before it is trusted
+def grd37_block_handle_within_the_file(P, R, L, rule="GRD-37"):
+    """Table::read_block_from_disk allocates a buffer of the size a block handle names.  The handle comes from the footer (48
+    bytes without a checksum) or from an index entry, so before the allocation it is compared with the length of the file:
+    the allocation is reached only over the edge on which a handle-derived bound is <= file.len().  (A damaged size varint
+    asked for 2^63 bytes and the allocator aborted the process - no error, not even a panic that could be caught: D25.)"""
+    fn = "tables::table::Table::read_block_from_disk"
+    b = P.body(fn)
+    if b is None:
+        return R.missing_anchor(rule, fn)
+    R.analysed(b)
+    allocs = [c for c in b.calls() if not b.is_cleanup(c.bb) and strip_generics(c.name or "").rsplit("::", 1)[-1] in ("from_elem", "with_capacity", "resize", "reserve", "reserve_exact")
+              and any(o.kind == "call" and (o.name or "").endswith(("BlockHandle::get_size", "BlockHandle::get_offset")) for a in c.args for o in _leaves_calls(b, a))]
+    is_len = lambda os_: any(o.kind == "call" and (o.name or "").endswith("ReadonlyRandomAccessFile::len") for o in os_)
+    inside = []
+    for c in comparisons(b):
+        if is_len(_deep(b, c.rhs)) and not is_len(_deep(b, c.lhs)):
+            inside += _edges(c, "le")
+        elif is_len(_deep(b, c.lhs)) and not is_len(_deep(b, c.rhs)):
+            inside += _edges(c, "ge")
+    bad = [c.line for c in allocs if not b.must_pass(c.bb, through_edges=inside)]
+    R.check(rule, fn + "|handle-checked-against-the-file-length", bool(allocs) and bool(inside) and not bad, where(b),
+            "the buffer for a block is allocated only behind `handle-derived end <= file.len()`",
+            "allocation at line(s) %s not behind the length test" % bad if bad else "allocations sized by the handle %d, in-range edges %d" % (len(allocs), len(inside)))
+    R.floor(rule, "handle-sized allocations in read_block_from_disk", len(allocs), 1)
+
+
+def _edges(c, rel):
+    """edges of comparison c on which `lhs rel rhs` holds (rel in le / ge, implied relations included)"""
+    from ..rules import NEG, implies
+    out = []
+    if implies(c.op, rel):
+        out += [(c.bb, t) for t in c.true_t]
+    if implies(NEG[c.op], rel):
+        out += [(c.bb, t) for t in c.false_t]
+    return out
+
+
+def _deep(b, op, depth=4):
+    """origins of an operand with `?` / cast / conversion calls of one argument looked through"""
+    out = []
+    for o in origins(b, op):
+        out.append(o)
+        if o.kind == "call" and o.site is not None and len(o.site.args) == 1 and depth > 0:
+            out += _deep(b, o.site.args[0], depth - 1)
+    return out
+
+
+def _leaves_calls(b, op, depth=5):
+    """call origins of an arithmetic expression, looking through binops and through arithmetic helper calls (saturating_add, ...)"""
+    out = []
+    for o in _leaves(b, op):
+        out.append(o)
+        if o.kind == "call" and o.site is not None and depth > 0 and ("::num::" in (o.name or "") or (o.name or "").rsplit("::", 1)[-1] in ("min", "max")):
+            for a in o.site.args:
+                out += _leaves_calls(b, a, depth - 1)
+    return out
